@@ -126,8 +126,10 @@ class WbDecWorld(World):
         feats = set(config["feats"])
         spell = (lambda fs: {wishbone.Feature(f) for f in fs}) if config.get("feats_as") == "enum" \
             else (lambda fs: set(fs))
-        dut = hw.construct(wishbone.Decoder, addr_width=aw, data_width=dw, granularity=g,
-                           features=spell(feats), alignment=config["al"])
+        dut = hw.must_accept("C07", f"wishbone.Decoder(addr_width={aw}, data_width={dw}, "
+                             f"granularity={g}, features={sorted(feats)}, alignment={config['al']})",
+                             wishbone.Decoder, addr_width=aw, data_width=dw, granularity=g,
+                             features=spell(feats), alignment=config["al"])
         subs = []
         for i, sc in enumerate(config["subs"]):
             try:
